@@ -7,6 +7,7 @@ usage: mutant.py confirm <worktree> <mutdir>            -> prints CONFIRMED / RE
 """
 import json, os, re, shutil, subprocess, sys, time
 
+ROOT = os.path.dirname(os.path.dirname(os.path.abspath(__file__)))
 ENV = dict(os.environ, CARGO_NET_OFFLINE="true", RUST_LIB_BACKTRACE="0")
 
 def sh(cmd, cwd=None, timeout=3600):
@@ -69,13 +70,13 @@ def detect(patch, ids):
     try:
         for pid in ids:
             t0 = time.time()
-            rc, out = sh(f"./run {pid} quick 2>&1", cwd="/verif", timeout=3600)
+            rc, out = sh(f"./run {pid} quick 2>&1", cwd=ROOT, timeout=3600)
             viol = [l for l in out.splitlines() if l.startswith("VIOLATION")]
             sig = [l for l in out.splitlines() if l.startswith("[sv] " + pid + " /")]
             results[pid] = {"exit": rc, "violation": bool(viol), "detail": (sig[:1] or [""])[0][:400], "wall_s": round(time.time() - t0, 1)}
     finally:
         sh("git checkout -- .", cwd="/repo")
-        sh("rm -f /verif/replays/*/fail-*", cwd="/verif")
+        sh("rm -f replays/*/fail-*", cwd=ROOT)
     return results
 
 def main():
